@@ -8,27 +8,34 @@
 
    The property's statement is proved at full strength for the cue grammar:
      forall f, wf_file f = true -> read_cues_file (print_file f) = Ok (cues f)  /\  read_cues (print_file f) = Ok (cues f)
-   i.e. for any number of cues, any counters, leading / separating / trailing blank-line runs, 2- or 3-digit hours,
+   i.e. for any number of cues, any counters, leading / separating / trailing blank-line runs, hour fields of any width from
+   two digits up to the longest digit string the interpreter converts (4 300 digits; beyond that int() raises ValueError, which
+   M transcribes: C10_long_hours_value_error),
    minutes and seconds 00-99, any blanks around the arrow, any tail on the timing line, LF or CR LF terminators through
    either kind of stream, last line with or without terminator, cue text of 1..n non-blank lines made of literal
    characters, character references (&amp; &lt; &gt; &quot; &nbsp; &#d; &#xh;), b/i/u tags in angle syntax (short, long,
    upper-case names) and in brace syntax (short and long), <font color=..> tags (#rrggbb, #rrggbbaa, named colour, either
    case, double / single / no quotes), nested and adjacent at will, spanning lines or not, and closing tags that close
    nothing (no open tag, or not the name of the innermost open tag) anywhere.
-   The four findings that were recorded here (short brace tags, stray / mismatched closers, the literal characters
-   backslash-n-backslash-r, CR kept through a non-translating stream) are repaired in the code; their witnesses are
-   `C10_repaired_witnesses`.  One finding is recorded (Findings/C10.v): the writer prints hour fields of four digits from
-   1000 h on, which the reader's pattern does not accept; `C10_writer_roundtrip_partial` carries that trigger.
+   The five findings that were recorded here (short brace tags, stray / mismatched closers, the literal characters
+   backslash-n-backslash-r, CR kept through a non-translating stream, hour fields of more than three digits - which the
+   writer prints from 1000 h on - rejected) are repaired in the code; their witnesses are `C10_repaired_witnesses` and
+   `C10_writer_hours_example`.  No finding is recorded: `C10_writer_roundtrip` has no trigger.
+   `<font color>` (a color attribute without a value) used to raise TypeError and is now passed over
+   (`C10_font_color_without_value`); no exception other than ValueError is left in M (`C10_only_value_error`).
+   utils.parse_color (repaired for C19: whole-value match, components above 255 and digits outside ASCII rejected) is
+   transcribed for every attribute value, ASCII or not; its colours are bytes (`C10_colors_are_bytes`).
    Not covered by theorems: that ttconv's SRT writer only emits texts of the form `wprint cs` (compared on generated
    documents by harness/c10.py, which parses each output into a `list wcue` and has Coq check `wprint` of it against
    the output), and inputs outside the grammar (malformed / unconstrained streams: model = code only). *)
 From TT Require Import Base.Prelude Base.SrtTypes Gen.SrtTables Model.SrtReader Spec.SrtCueSpec Spec.SrtWriterOut
-  Proofs.C10.Time Proofs.C10.Brace Proofs.C10.Writer Proofs.C10.Witness.
+  Proofs.C10.Time Proofs.C10.Brace Proofs.C10.Writer Proofs.C10.Witness Proofs.C10.Outcomes.
 From Coq Require Import QArith.
 Local Open Scope Z_scope.
 
-(* every digit string of the pattern HH(H):MM:SS,mmm --> HH(H):MM:SS,mmm, whatever the white space around the
-   arrow and whatever follows: begin and end are h*3600 + m*60 + s + ms/1000 of the printed digits, as rationals in
+(* every digit string of the pattern H..HH:MM:SS,mmm --> H..HH:MM:SS,mmm (`clock_digits`: hour fields of ANY length from two
+   digits on, minutes and seconds of two, milliseconds of three), whatever the white space around the arrow and whatever
+   follows: begin and end are h*3600 + m*60 + s + ms/1000 of the printed digits, as rationals in
    lowest terms (structurally Qred of the specification's value) and hence equal as rationals *)
 Theorem C10_exact_time : forall bh bm bs bms ws1 ws2 eh em es ems tail,
   clock_digits bh bm bs bms -> clock_digits eh em es ems ->
@@ -39,9 +46,10 @@ Theorem C10_exact_time : forall bh bm bs bms ws1 ws2 eh em es ems tail,
     Qeq (seconds_of (g_bh g) (g_bm g) (g_bs g) (g_bms g)) (printed_seconds bh bm bs bms) /\
     Qeq (seconds_of (g_eh g) (g_em g) (g_es g) (g_ems g)) (printed_seconds eh em es ems).
 Proof. exact exact_time. Qed.
-(* the same over the clocks of the grammar - every hour 00-99 and 000-999, minute and second 00-99, millisecond 000-999:
-   the value read is the clock's value, which is the millisecond total over 1000 *)
-Theorem C10_exact_time_grammar : forall k1 k2 ws1 ws2 tail, wf_clock k1 = true -> wf_clock k2 = true ->
+(* the same over the clocks that can be written - an hour field of every width w >= 2 (no upper bound) holding any hour
+   below 10^w, minute and second 00-99, millisecond 000-999: the value read is the clock's value, which is the millisecond
+   total over 1000 *)
+Theorem C10_exact_time_grammar : forall k1 k2 ws1 ws2 tail, clock_shape k1 = true -> clock_shape k2 = true ->
   ws1 <> [] -> forallb is_space ws1 = true -> ws2 <> [] -> forallb is_space ws2 = true ->
   exists g, search_tc (print_clock k1 ++ ws1 ++ [45;45;62] ++ ws2 ++ print_clock k2 ++ tail) = Some g /\
     seconds_of (g_bh g) (g_bm g) (g_bs g) (g_bms g) = clock_seconds k1 /\
@@ -70,7 +78,7 @@ Theorem C10_tags_scope : forall p,
   exists kids, parse_text (rewrite_text (print_nodes p)) = Ok kids /\ flat_list st0 kids = items_list st0 p.
 Proof. exact tags_scope. Qed.
 
-(* counters, blank-line runs, 2- or 3-digit hour fields, white space, tails, terminators and the kind of stream are
+(* counters, blank-line runs, the width of the hour fields (two digits or more), white space, tails, terminators and the kind of stream are
    tolerated: two files that agree on clock fields and payloads read the same, whichever way they are read *)
 Theorem C10_tolerates : forall f f',
   wf_file f = true -> wf_file f' = true -> Forall2 same_content (f_cues f) (f_cues f') ->
@@ -79,12 +87,38 @@ Theorem C10_tolerates : forall f f',
 Proof. exact tolerates. Qed.
 
 (* reading the SRT writer's own output returns the cues that were written: every text of the form the writer emits
-   (any counters, times on millisecond multiples below 1000 h, payload lines non-blank, characters other than '<' '&'
-   '{', tags of the writer's repertoire properly nested) is read as exactly the cues it was printed from.
-   Full statement (without the trigger) refuted in Findings/C10.v. *)
-Theorem C10_writer_roundtrip_partial : forall cs, wwf cs = true -> trigger_hours_1000 cs = false ->
+   (any counters, times on millisecond multiples - hours printed with two digits or as many as the number has, 1000 h
+   and beyond included -, payload lines non-blank, characters other than '<' '&' '{', tags of the writer's repertoire
+   properly nested) is read as exactly the cues it was printed from.  No trigger: the finding hours-beyond-999-rejected
+   is repaired. *)
+Theorem C10_writer_roundtrip : forall cs, wwf cs = true ->
   read_cues (wprint cs) = Ok (map wmeaning cs) /\ read_cues_file (wprint cs) = Ok (map wmeaning cs).
 Proof. exact writer_roundtrip. Qed.
+
+(* outcomes, for EVERY input text (no grammar assumed): the transcribed reader raises nothing but ValueError - TypeError,
+   which <font color> used to cause (parse_color(None)), cannot occur any more *)
+Theorem C10_only_value_error : forall content,
+  value_error_only (to_model content) /\ value_error_only (to_model_file content) /\
+  value_error_only (read_cues content) /\ value_error_only (read_cues_file content).
+Proof. exact only_value_error. Qed.
+(* the repaired statement itself: a color attribute without a value is passed over wherever it stands - the font tag is
+   styled by the first color attribute that has a value, and by none when there is none *)
+Theorem C10_font_color_without_value : forall attrs,
+  tag_style t_font ((t_color, None) :: attrs) = tag_style t_font attrs /\ tag_style t_font [(t_color, None)] = Ok st0.
+Proof. intro attrs. exact (conj (font_color_novalue_ignored attrs) font_color_only_novalue). Qed.
+(* with the repair of utils.parse_color (whole-value match, components above 255 and digits outside ASCII rejected) a
+   colour with a component outside 0..255 cannot be returned any more: for EVERY attribute value what parse_color returns,
+   and hence the colour a start tag gives its span, has four byte components *)
+Theorem C10_colors_are_bytes : forall v c, parse_color v = Ok c -> bytes c = true.
+Proof. exact parse_color_bytes. Qed.
+Theorem C10_span_colors_are_bytes : forall tag attrs st c, tag_style tag attrs = Ok st -> st_c st = Some c -> bytes c = true.
+Proof. exact tag_style_bytes. Qed.
+(* the grammar's bound on the hour width is the interpreter's: a timing line with a longer hour field raises ValueError *)
+Theorem C10_long_hours_value_error : forall k1 k2 ws1 ws2 tail d tm att tx, clock_shape k1 = true -> clock_shape k2 = true ->
+  ws1 <> [] -> forallb is_space ws1 = true -> ws2 <> [] -> forallb is_space ws2 = true ->
+  int_max_str_digits < Z.of_nat (k_hw k1) \/ int_max_str_digits < Z.of_nat (k_hw k2) ->
+  step (mkM TC d tm att tx) (print_clock k1 ++ ws1 ++ [45;45;62] ++ ws2 ++ print_clock k2 ++ tail) = Stop (Raised EValueError).
+Proof. exact long_hours_value_error. Qed.
 
 (* non-vacuity: a file meeting every hypothesis (leading blank lines, odd counters, a three-digit hour, tabs around the
    arrow, a tail, nested and adjacent tags in all syntaxes over two lines, closers that close nothing, references, font
@@ -99,7 +133,7 @@ Example C10_example : wf_file f_example = true /\
                     (Qmake 1 1, Qmake 5 2, [Ch 8364 st0; Brk; Ch 120 st0])].
 Proof. exact example_ok. Qed.
 (* 00:00:00,280 is 7/25 (it was 0.28000000000000003 before the fix) *)
-Example C10_example_280 : read_cues (print_file (mkFile [] [mkCue [49] (mkClock 0 false 0 0 280) [32] [32] (mkClock 0 false 0 1 70) [] [NChar 120] [[]]] false true))
+Example C10_example_280 : read_cues (print_file (mkFile [] [mkCue [49] (mkClock 0 2 0 0 280) [32] [32] (mkClock 0 2 0 1 70) [] [NChar 120] [[]]] false true))
   = Ok [(Qmake 7 25, Qmake 107 100, [Ch 120 st0])].
 Proof. exact example_280. Qed.
 (* the witnesses of the four repaired findings ({b}x{/b};  a</b>c;  <b>x</i>y</b>;  C:\n\rx;  a CR LF b CR LF unread by
@@ -110,16 +144,50 @@ Example C10_repaired_witnesses : reads_ok f_brace /\ reads_ok f_stray /\ reads_o
   cues f_crlf2 = [(Qmake 1 1, Qmake 5 2, [Ch 97 st0; Brk; Ch 98 st0])].
 Proof. exact repaired_witnesses. Qed.
 (* the writer theorem's hypotheses are satisfiable: two cues as the writer prints them, and what is read *)
-Example C10_writer_example : wwf w_example = true /\ trigger_hours_1000 w_example = false /\
+Example C10_writer_example : wwf w_example = true /\
   read_cues (wprint w_example) = Ok (map wmeaning w_example) /\
   map wmeaning w_example =
     [(Qmake 1 1, Qmake 5 2, [Ch 97 (mkSt true false false (Some (255, 0, 0, 255))); Ch 98 (mkSt true true false (Some (255, 0, 0, 255))); Brk;
                               Ch 99 (mkSt false false true (Some (255, 0, 0, 255))); Ch 33 st0]);
      (Qmake 359999999 1000, Qmake 360000001 1000, [Ch 120 st0; Brk; Ch 121 st0])].
-Proof. destruct writer_example as (A & B & _ & C & D). exact (conj A (conj B (conj C D))). Qed.
+Proof. destruct writer_example as (A & _ & C & D). exact (conj A (conj C D)). Qed.
+(* the witness of the repaired finding hours-beyond-999-rejected: 999:59:59,000 --> 1000:00:00,000 and
+   1000:00:00,000 --> 1234567901234:34:04,444 as the writer prints them are read as written *)
+Example C10_writer_hours_example : wwf w_hours = true /\
+  read_cues (wprint w_hours) = Ok (map wmeaning w_hours) /\ read_cues_file (wprint w_hours) = Ok (map wmeaning w_hours) /\
+  map wmeaning w_hours = [(Qmake 3599999 1, Qmake 3600000 1, [Ch 120 st0]);
+                          (Qmake 3600000 1, Qmake 1111111111111111111 250, [Ch 121 st0])].
+Proof. destruct writer_hours_read as (A & _ & B & C & D). exact (conj A (conj B (conj C D))). Qed.
+(* hour fields of two, four and twelve digits are clocks of the time theorem *)
+Example C10_clock_shape_example :
+  clock_shape (mkClock 7 2 0 0 0) = true /\ clock_shape (mkClock 1000 4 0 0 0) = true /\
+  clock_shape (mkClock 123456789012 12 59 59 999) = true /\
+  print_clock (mkClock 1000 4 0 0 0) = [49;48;48;48;58;48;48;58;48;48;44;48;48;48] /\
+  clock_seconds (mkClock 1000 4 0 0 1) = Qmake 3600000001 1000.
+Proof. exact clock_shape_examples. Qed.
+(* values that parse_color used to accept and now rejects - #00ff00x, "rgb(1,2,3) ", rgb(256,0,0), rgb(U+0661,2,3) - and two
+   it accepts: rgb(255, 0,0), and blac + U+212A KELVIN SIGN (str.lower gives "black") *)
+Example C10_parse_color_example :
+  parse_color [35;48;48;102;102;48;48;120] = Raised EValueError /\
+  parse_color [114;103;98;40;49;44;50;44;51;41;32] = Raised EValueError /\
+  parse_color [114;103;98;40;50;53;54;44;48;44;48;41] = Raised EValueError /\
+  parse_color [114;103;98;40;1633;44;50;44;51;41] = Raised EValueError /\
+  parse_color [114;103;98;40;50;53;53;44;32;48;44;48;41] = Ok (255, 0, 0, 255) /\
+  parse_color [98;108;97;99;8490] = Ok (0, 0, 0, 255).
+Proof. exact parse_color_rejects. Qed.
+(* <font color>x</font>, <font color color=red>x, <font color="">x *)
+Example C10_font_novalue_example :
+  parse_text [60;102;111;110;116;32;99;111;108;111;114;62; 120; 60;47;102;111;110;116;62]
+    = Ok [ESpan st0 [ESpan st0 [EText [120]]]] /\
+  parse_text [60;102;111;110;116;32;99;111;108;111;114;32;99;111;108;111;114;61;114;101;100;62; 120]
+    = Ok [ESpan (mkSt false false false (Some (255, 0, 0, 255))) [ESpan st0 [EText [120]]]] /\
+  parse_text [60;102;111;110;116;32;99;111;108;111;114;61;34;34;62; 120] = Raised EValueError.
+Proof. exact font_novalue_examples. Qed.
 
 Print Assumptions C10_exact_time.  Print Assumptions C10_exact_time_grammar.  Print Assumptions C10_frames_exact.
 Print Assumptions C10_roundtrip.  Print Assumptions C10_roundtrip_stringio.
 Print Assumptions C10_tags_scope.
 Print Assumptions C10_tolerates.
-Print Assumptions C10_writer_roundtrip_partial.
+Print Assumptions C10_writer_roundtrip.
+Print Assumptions C10_colors_are_bytes.  Print Assumptions C10_span_colors_are_bytes.
+Print Assumptions C10_only_value_error.  Print Assumptions C10_font_color_without_value.  Print Assumptions C10_long_hours_value_error.
